@@ -465,8 +465,21 @@ example : (0:ℝ) < 20 ∧ ∀ f ∈ [(1:ℝ), 2], lorentzDiodePsd f 1 1 2 (1 / 
     Lorentzian × `g_diode` (this is the function the `c11.psd` / `c11.chi2` ops run) -/
 theorem spectrum_model_lorentz_diode (m : Mdl ℝ) (hh : m.o.hydro = false) (f fc D fd al : ℝ) :
     m.psd .diode f fc D [fd, al] = .ok (lorentzDiodePsd f fc D fd al) ∧
+    m.psd (.fixed (some fd) (some al)) f fc D [] = .ok (lorentzDiodePsd f fc D fd al) ∧
+    m.psd (.fixed (some fd) none) f fc D [al] = .ok (lorentzDiodePsd f fc D fd al) ∧
+    m.psd (.fixed none (some al)) f fc D [fd] = .ok (lorentzDiodePsd f fc D fd al) ∧
+    m.psd (.fixed none none) f fc D [fd, al] = .ok (lorentzDiodePsd f fc D fd al) ∧
     m.psd .noFilter f fc D [] = .ok (lorentzianPsd f fc D * 1) := by
-  simp [Mdl.psd, Filt.eval, Mdl.physicalPsd, hh, lorentzDiodePsd, one_lit]
+  have e1 : (Filt.fixed (some fd) (some al)).eval f [] = .ok (gDiode f fd al) := rfl
+  have e2 : (Filt.fixed (some fd) none).eval f [al] = .ok (gDiode f fd al) := rfl
+  have e3 : (Filt.fixed none (some al)).eval f [fd] = .ok (gDiode f fd al) := rfl
+  have e4 : (Filt.fixed none none).eval f [fd, al] = .ok (gDiode f fd al) := rfl
+  refine ⟨by simp [Mdl.psd, Filt.eval, Mdl.physicalPsd, hh, lorentzDiodePsd], ?_, ?_, ?_, ?_,
+    by simp [Mdl.psd, Filt.eval, Mdl.physicalPsd, hh, one_lit]⟩
+  · unfold Mdl.psd; rw [e1]; simp [Mdl.physicalPsd, hh, lorentzDiodePsd]
+  · unfold Mdl.psd; rw [e2]; simp [Mdl.physicalPsd, hh, lorentzDiodePsd]
+  · unfold Mdl.psd; rw [e3]; simp [Mdl.physicalPsd, hh, lorentzDiodePsd]
+  · unfold Mdl.psd; rw [e4]; simp [Mdl.physicalPsd, hh, lorentzDiodePsd]
 example : (build oBulk).o.hydro = false := rfl
 
 /-- RECOVERY (Lorentzian × diode): on a noise-free spectrum containing four frequencies with
@@ -601,5 +614,60 @@ example : ∃ r, drivePost 1 1 2 3 (1 * Real.exp (-(1 / 2) * ((1 - 2) / 1) ^ 2))
     2 5 1 1 1 1 1 = .ok r :=
   (driving_peak_gaussian_recovery 1 1 2 3 1 2 1 2 5 1 1 1 1 1 (by norm_num) (by norm_num) (by norm_num)
     one_pos one_pos (by norm_num) (by norm_num)).imp fun _ h => h.1
+
+/-- INDEX BOOKKEEPING of the peak search (`np.where(mask)[0][0] + np.argmax(mags[mask])`): on a
+    sorted frequency axis (what `np.fft.rfftfreq` returns) the peak bin lies inside the search
+    range, carries the largest magnitude of the range, and is the first bin that does -/
+theorem driving_peak_bin_is_argmax (freqs mags : List ℝ) (g s : ℝ) (m : Nat)
+    (hs : freqs.Pairwise (· ≤ ·)) (hlen : mags.length = freqs.length)
+    (h : peakBin freqs mags g s = some m) :
+    ∃ hm : m < mags.length, (searchMask freqs g s)[m]? = some true ∧
+      (∀ j (hj : j < mags.length), (searchMask freqs g s)[j]? = some true → mags[j] ≤ mags[m]) ∧
+      (∀ j (hj : j < mags.length), j < m → (searchMask freqs g s)[j]? = some true → mags[j] < mags[m]) :=
+  peakBin_spec' freqs mags g s m hs hlen h
+example : ([1, 2, 3, 4] : List ℝ).Pairwise (· ≤ ·) ∧ ([5, 7, 6, 9] : List ℝ).length = ([1, 2, 3, 4] : List ℝ).length ∧
+    peakBin ([1, 2, 3, 4] : List ℝ) [5, 7, 6, 9] 2.5 1.2 = some 1 := by
+  refine ⟨by simp [List.pairwise_cons]; norm_num, rfl, ?_⟩
+  have hm : searchMask ([1, 2, 3, 4] : List ℝ) 2.5 1.2 = [false, true, true, false] := by
+    simp [searchMask, RealLike.lt]; norm_num
+  have hf : firstTrue [false, true, true, false] = some 1 := rfl
+  have hsel : maskSelect ([5, 7, 6, 9] : List ℝ) [false, true, true, false] = [7, 6] := rfl
+  have ha : argmax ([7, 6] : List ℝ) = 0 := by
+    simp [argmax, argmaxGo, RealLike.lt]; norm_num
+  simp only [peakBin, hm, hf, hsel, ha, Option.map_some]
+
+/-- COMPOSITION: an answer of the whole estimator (`c11.drive`) is the answer of `drivePost` on the
+    bins `m−1, m, m+1` around the peak bin `m ≥ 1`; the theorems about `drivePost` and
+    `peakBin` therefore speak about every answer of `estimateDrive` -/
+theorem driving_estimator_decomposes (freqs mags : List ℝ) (g s delta npts tp sw sw2 : ℝ)
+    (r : DriveEst ℝ) (h : estimateDrive freqs mags g s delta npts tp sw sw2 = .ok r) :
+    ∃ m x0 x1 x2 a0 a1 a2, peakBin freqs mags g s = some m ∧ 0 < m ∧
+      freqs[m - 1]? = some x0 ∧ freqs[m]? = some x1 ∧ freqs[m + 1]? = some x2 ∧
+      mags[m - 1]? = some a0 ∧ mags[m]? = some a1 ∧ mags[m + 1]? = some a2 ∧
+      drivePost m x0 x1 x2 a0 a1 a2 g s delta npts tp sw sw2 = .ok r :=
+  estimateDrive_ok' freqs mags g s delta npts tp sw sw2 r h
+
+/-! ## Argument validation of `fit_power_spectrum` -/
+
+/-- a call is accepted exactly when the spectrum has at least 4 points, the loss function is one of
+    the two documented ones, bias correction is not combined with the robust loss, and the
+    analytical fit range is not empty -/
+theorem fit_validation_iff (npts nAnl : Nat) (loss : Loss) (bias : Bool) :
+    fitValidate npts loss bias nAnl = none ↔
+      (4 ≤ npts ∧ loss ≠ .other ∧ ¬(bias = true ∧ loss = .lorentzian) ∧ 1 ≤ nAnl) := by
+  unfold fitValidate
+  by_cases h1 : npts < 4 <;> by_cases h2 : nAnl < 1 <;> cases loss <;> cases bias <;> simp [h1, h2] <;> omega
+
+/-- which error, in the order of the code: too few points (RuntimeError) before the unknown loss
+    (ValueError) before bias + robust loss (RuntimeError) before the empty analytical range -/
+theorem fit_validation_errors (npts nAnl : Nat) (loss : Loss) (bias : Bool) :
+    (npts < 4 → fitValidate npts loss bias nAnl = some .runtime) ∧
+    (4 ≤ npts → loss = .other → fitValidate npts loss bias nAnl = some .value) ∧
+    (4 ≤ npts → loss = .lorentzian → bias = true → fitValidate npts loss bias nAnl = some .runtime) ∧
+    (4 ≤ npts → loss ≠ .other → ¬(bias = true ∧ loss = .lorentzian) → nAnl = 0 →
+      fitValidate npts loss bias nAnl = some .runtime) := by
+  unfold fitValidate
+  by_cases h1 : npts < 4 <;> by_cases h2 : nAnl < 1 <;> cases loss <;> cases bias <;> simp [h1, h2] <;> omega
+example : (3 : Nat) < 4 ∧ (4 : Nat) ≤ 4 ∧ Loss.gaussian ≠ Loss.other := by decide
 
 end Verif.C11
